@@ -21,10 +21,61 @@ import zoo
 import koala.flux_finder.flux_finder as ff
 from koala import example_graphs as eg
 from koala import graph_color as gc
+from koala import graph_utils as gu
 from koala.lattice import INVALID, Lattice, cut_boundaries
 from props.c14 import plaquette_graph_connected
 
 SIGN_REAL = [1, -1, -1, 1]
+BUDGETS = []          # (maxits handed to the path finder, n_edges) for every recorded path query
+
+
+def hungry_pairs(l, top):
+    """the plaquette pairs for which the A* forward pass needs the most iterations (one adjacency call per iteration), most expensive first"""
+    from koala.flux_finder import pathfinding as pf
+    F = l.n_plaquettes
+    adjs = [gu.adjacent_plaquettes(l, p) for p in range(F)]
+    cent = np.array([p.center for p in l.plaquettes])
+    cnt = [0]
+
+    def adj(a):
+        cnt[0] += 1
+        return adjs[a]
+    res = []
+    for a in range(F):
+        for b in range(a + 1, F):
+            cnt[0] = 0
+            try:
+                pf.a_star_search_forward_pass(a, b, lambda x, y: np.linalg.norm(cent[x] - cent[y]), adj, True, 10 ** 7)
+            except Exception:
+                continue
+            res.append((cnt[0], a, b))
+    res.sort(reverse=True)
+    return res[:top]
+
+
+def budget_stress(ctx, rng, sizes, top):
+    """'reaches every target sector, never raises': two isolated plaquettes as far apart - in A* iterations - as the lattice allows"""
+    import warnings
+    for s in sizes:
+        l = zoo.rebuild(eg.square_lattice(*s))
+        name = f"square{s}-budget"
+        F, E = l.n_plaquettes, l.n_edges
+        pairs = hungry_pairs(l, top)
+        if pairs:
+            ctx.count(f"max_astar_iterations_over_n_edges_permille[{s[0]}x{s[1]}]", int(1000 * pairs[0][0] / E))
+        for its, a, b in pairs:
+            for variant in ("new", "old"):
+                guess = np.ones(E, dtype=np.int8)
+                with warnings.catch_warnings():
+                    warnings.simplefilter("ignore")
+                    target = np.array(flux_fn(variant)(l, guess), dtype=np.int8)
+                    target[[a, b]] *= -1
+                    rep = lambda what, **kw: ctx.impl_violation(f"{name} [{variant}] pair ({a},{b}): {what}",
+                                                                dict(case=name, generator=f"square_lattice{s}", variant=variant, pair=[int(a), int(b)], astar_iterations=int(its), **kw))
+                    out, steps = recorded_solve(solver_fn(variant), l, target, guess)
+                    judge(ctx, name, l, variant, target, guess, out, rep)
+                ctx.case((name, variant, a, b), nontrivial=True, sample=dict(case=name, pair=[int(a), int(b)], astar_iterations=int(its)))
+
 
 
 def recorded_solve(fn, l, target, guess):
@@ -35,6 +86,7 @@ def recorded_solve(fn, l, target, guess):
     def rec(lat, a, b, *args, **kw):
         nodes, edges = orig(lat, a, b, *args, **kw)
         steps.append(dict(a=int(a), b=int(b), nodes=[int(x) for x in nodes], edges=[int(x) for x in edges]))
+        BUDGETS.append((kw.get("maxits", args[2] if len(args) > 2 else None), lat.n_edges))
         return nodes, edges
     ff.path_between_plaquettes = rec
     try:
@@ -244,6 +296,16 @@ def run(ctx):
         if o["bonds"] != [int(x) for x in out]:
             brk("bonds differ from the model run with the same paths"); continue
         ctx.count("solver_runs_reproduced_by_model")
+    budget_stress(ctx, rng, [(9, 9), (10, 10)] if ctx.tier == "quick" else [(9, 9), (10, 10), (11, 11), (12, 12), (9, 13)], 8 if ctx.tier == "quick" else 40)
+    low = [(m, e) for m, e in BUDGETS if m is not None and m < e]
+    ctx.count("path_queries_with_budget_recorded", len(BUDGETS))
+    if low:
+        # the solver hands the path finder a smaller budget than C11's statement covers (n_edges): widen the search for a target it cannot reach
+        before = len(ctx.violations)
+        budget_stress(ctx, rng, [(9, 9), (10, 10), (11, 11), (12, 12), (13, 13)], 400)
+        if len(ctx.violations) == before:
+            ctx.corr_break(f"the solver calls path_between_plaquettes with maxits={low[0][0]} on a lattice with {low[0][1]} edges: below the budget (n_edges) for which C11 "
+                           "states that a path is always found; no target it fails to reach was found", dict(case="budget", maxits=int(low[0][0]), n_edges=int(low[0][1])))
     amorphous(ctx, rng)
     ctx.assumptions += ["the path finder is a parameter of the model: its recorded results are checked to be chains (C11 decides the path finder)",
                         "Euler's formula E = 3F on closed trivalent lattices is a hypothesis of ansatz_parity (monitored)"]
